@@ -28,6 +28,7 @@ def REACH(S, tol, a, c):
     """c is obtained from a by zero or more steps each within CIEDE2000 tol (reflexive-transitive closure).
     Uninterpreted predicate; the closure rules are instantiated for every pair of REACH atoms that share `a`
     (each instance is valid by definition, so adding them is sound)."""
+    if S.concrete: return True          # not evaluable on a single call; the step chain is monitored by engine E (C04)
     key = ('REACH', str(tol))
     seen = S.__dict__.setdefault('_reach', {}).setdefault(key, [])
     ia, ic = S.ints(a), S.ints(c)
@@ -49,7 +50,7 @@ def register(reg):
     # ------------------------------------------------------------------ binary_search_lightness
     def bs_inv(S, a, st, k):
         b = st.best_rgb
-        return S.And(S.opt_rgb8(b), S.opt(b, lambda t: S.le(S.DE(a.text_rgb, t), a.delta_e_threshold)))
+        return {'valid': S.opt_rgb8(b), 'within_tol': S.opt(b, lambda t: S.le(S.DE(a.text_rgb, t), a.delta_e_threshold))}
     reg.add(Contract(
         f'{M}:binary_search_lightness',
         params={'text_rgb': 'rgb', 'bg_rgb': 'rgb', 'delta_e_threshold': 'real', 'target_contrast': 'real', 'large_text': 'bool'},
@@ -80,15 +81,17 @@ def register(reg):
     # ------------------------------------------------------------------ generate_accessible_color
     def gen_bound(S, a):
         seq = a.delta_e_sequence
+        if S.concrete: return STRICT_BOUND if seq is None else max(seq)
         if isinstance(seq, VNone): return z3.RealVal(repr(STRICT_BOUND))
         if isinstance(seq, VOpt): return z3.If(seq.isnone, z3.RealVal(repr(STRICT_BOUND)), S.maxof(seq.inner))
         return S.maxof(seq, a._path)
     def gen_inv(S, a, st, k):
         bc, bcon, c0 = st.best_candidate, st.best_contrast, S.CR(a.text_rgb, a.bg_rgb)
-        if isinstance(bc, VNone): return S.eq(bcon, c0)
-        some = S.And(S.rgb8(S.the(bc)), S.eq(S.CR(S.the(bc), a.bg_rgb), bcon), S.ge(bcon, c0),
-                     S.le(S.DE(a.text_rgb, S.the(bc)), gen_bound(S, a)))
-        return S.If(S.is_none(bc), S.eq(bcon, c0), some)
+        if isinstance(bc, VNone): return {'no_harm': S.eq(bcon, c0)}
+        n, t = S.is_none(bc), S.the(bc)
+        return {'valid': S.Or(n, S.rgb8(t)),
+                'no_harm': S.If(n, S.eq(bcon, c0), S.And(S.eq(S.CR(t, a.bg_rgb), bcon), S.ge(bcon, c0))),
+                'bounded': S.Or(n, S.le(S.DE(a.text_rgb, t), gen_bound(S, a)))}
     reg.add(Contract(
         f'{M}:generate_accessible_color',
         params={'text_rgb': 'rgb', 'bg_rgb': 'rgb', 'large': 'bool', 'target_contrast': ('opt', 'real'), 'min_contrast': ('opt', 'real'),
@@ -119,9 +122,9 @@ def register(reg):
 
     def rec_inv(S, a, st, k):
         c = st.current_rgb
-        return S.And(S.rgb8(c), S.ge(S.CR(c, a.bg_rgb), S.CR(a.text_rgb, a.bg_rgb)),
-                     REACH(S, STEP_BOUND, a.text_rgb, c),
-                     S.Or(k == 0, S.lt(S.CR(c, a.bg_rgb), a.min_contrast)))
+        return {'valid': S.rgb8(c), 'no_harm': S.ge(S.CR(c, a.bg_rgb), S.CR(a.text_rgb, a.bg_rgb)),
+                'chain_le_3': REACH(S, STEP_BOUND, a.text_rgb, c),
+                'flag_iff': S.Or(k == 0, S.lt(S.CR(c, a.bg_rgb), a.min_contrast))}
     reg.add(Contract(
         f'{M}:_strategy_recursive', params=strat_params, pre=rgb_pre, result=PAIR, pure=True, raises=(),
         posts={'valid': valid, 'flag_iff': flag_iff, 'no_harm': no_harm,
@@ -134,9 +137,9 @@ def register(reg):
         return S.pure_value('_strategy_recursive', [a.text_rgb, a.bg_rgb, a.large, a.target_contrast, a.min_contrast], PAIR)
     def relax_inv(S, a, st, k):
         c = st.opt_a_rgb
-        return S.And(S.rgb8(c), S.ge(S.CR(c, a.bg_rgb), S.CR(a.text_rgb, a.bg_rgb)),
-                     REACH(S, STEP_BOUND, a.text_rgb, c),
-                     S.Implies(st.opt_a_success, S.ge(S.CR(c, a.bg_rgb), a.min_contrast)))
+        return {'valid': S.rgb8(c), 'no_harm': S.ge(S.CR(c, a.bg_rgb), S.CR(a.text_rgb, a.bg_rgb)),
+                'chain_or_15': REACH(S, STEP_BOUND, a.text_rgb, c),
+                'flag_iff': S.Implies(st.opt_a_success, S.ge(S.CR(c, a.bg_rgb), a.min_contrast))}
     def covers(S, a, r):
         rec = REC(S, a)
         return S.Implies(S.item(rec, 1), S.And(S.teq(S.item(r, 0), S.item(rec, 0)), S.item(r, 1)))
@@ -154,9 +157,8 @@ def register(reg):
         """(target, min) the code is required to use: min from the statement of C01; target as the code's own
         helper value (any target >= min keeps every clause; it is pinned only so that the REC symbol matches)"""
         mn = S.MIN(a.large, a.premium)
-        tgt = z3.If(S.b(a.premium), z3.If(S.b(a.large), z3.RealVal('4.5'), z3.RealVal('7.0')),
-                    z3.If(S.b(a.large), z3.RealVal('4.5'), z3.RealVal('7.0')))
-        return VReal(tgt), VReal(mn)
+        tgt = S.If(a.large, S.const(4.5), S.const(7.0))
+        return S.num_value(tgt), S.num_value(mn)
     def caf_d(S, r): return S.denotes(S.item(r, 0))
     def caf_rec(S, a):
         tgt, mn = caf_targets(S, a)
@@ -173,15 +175,15 @@ def register(reg):
             'flag_iff': lambda S, a, r: S.Iff(S.item(r, 1), S.ge(S.CR(caf_d(S, r), a.bg), S.MIN(a.large, a.premium))),
             'keep_if_ok': lambda S, a, r: S.Implies(S.Not(caf_need(S, a)), S.And(S.item(r, 1), S.teq(caf_d(S, r), a.text))),
             'no_harm': lambda S, a, r: S.ge(S.CR(caf_d(S, r), a.bg), S.CR(a.text, a.bg)),
-            'strict_le_5': lambda S, a, r: S.Implies(a.mode.t == 0, within(S, a.text, caf_d(S, r), STRICT_BOUND)),
+            'strict_le_5': lambda S, a, r: S.Implies(S.eqi(a.mode, 0), within(S, a.text, caf_d(S, r), STRICT_BOUND)),
             'chain': lambda S, a, r: S.And(
-                S.Implies(S.And(a.mode.t != 0, a.mode.t != 2), REACH(S, STEP_BOUND, a.text, caf_d(S, r))),
-                S.Implies(a.mode.t == 2, S.Or(REACH(S, STEP_BOUND, a.text, caf_d(S, r)), within(S, a.text, caf_d(S, r), RELAXED_BOUND)))),
-            'mode1_is_rec': lambda S, a, r: S.Implies(S.And(caf_need(S, a), a.mode.t != 0, a.mode.t != 2),
+                S.Implies(S.And(S.Not(S.eqi(a.mode, 0)), S.Not(S.eqi(a.mode, 2))), REACH(S, STEP_BOUND, a.text, caf_d(S, r))),
+                S.Implies(S.eqi(a.mode, 2), S.Or(REACH(S, STEP_BOUND, a.text, caf_d(S, r)), within(S, a.text, caf_d(S, r), RELAXED_BOUND)))),
+            'mode1_is_rec': lambda S, a, r: S.Implies(S.And(caf_need(S, a), S.Not(S.eqi(a.mode, 0)), S.Not(S.eqi(a.mode, 2))),
                                                       S.And(S.teq(caf_d(S, r), S.item(caf_rec(S, a), 0)), S.Iff(S.item(r, 1), S.item(caf_rec(S, a), 1)))),
-            'mode2_covers_rec': lambda S, a, r: S.Implies(S.And(caf_need(S, a), a.mode.t == 2, S.item(caf_rec(S, a), 1)),
+            'mode2_covers_rec': lambda S, a, r: S.Implies(S.And(caf_need(S, a), S.eqi(a.mode, 2), S.item(caf_rec(S, a), 1)),
                                                           S.And(S.teq(caf_d(S, r), S.item(caf_rec(S, a), 0)), S.item(r, 1))),
-            'same_kind': lambda S, a, r: S.Iff(S.Not(caf_need(S, a)), isinstance(S.item(r, 0), VTuple)),
+            'same_kind': lambda S, a, r: S.Iff(S.Not(caf_need(S, a)), S.is_tuple(S.item(r, 0))),
         },
         props={'denotes': ['C01'], 'valid': ['C01'], 'flag_iff': ['C01'], 'keep_if_ok': ['C02'], 'no_harm': ['C02'], 'strict_le_5': ['C04'],
                'chain': ['C04'], 'mode1_is_rec': ['C16'], 'mode2_covers_rec': ['C16'], 'same_kind': ['C16', 'C06']},
